@@ -655,9 +655,23 @@ bool url_aggregator::set_host_or_hostname(const std::string_view input) {
 
       // Set url's host to host, buffer to the empty string, and state to port
       // state.
+      // The length limit is enforced once, below, for the new host and the
+      // new port together: going through set_port() would silently drop a port
+      // that does not fit and keep the new host.
       std::string_view port_buffer = new_host.substr(location + 1);
-      if (!port_buffer.empty()) {
-        set_port(port_buffer);
+      if (!port_buffer.empty() &&
+          ada::unicode::is_ascii_digit(port_buffer.front())) {
+        auto first_non_digit =
+            std::ranges::find_if_not(port_buffer, ada::unicode::is_ascii_digit);
+        std::string_view digits(port_buffer.data(),
+                                first_non_digit - port_buffer.begin());
+        url_aggregator host_only(*this);
+        parse_port(digits);
+        if (!is_valid) {
+          // Invalid port (e.g., out of range): the new host is kept.
+          *this = std::move(host_only);
+          is_valid = true;
+        }
       }
       return check_url_size();
     }
